@@ -10,7 +10,7 @@ Local Open Scope string_scope.
 (* exceptions the modelled code can raise *)
 Inductive exn :=
 | TypeError | ValueError | ConfigError | DefaultNSError | DefaultEWError
-| IndexError | AttributeError | KeyError | OutOfFuel.
+| IndexError | AttributeError | KeyError | OutOfFuel | ModelGap.
 
 Inductive Py (A : Type) := Ok (a : A) | Raise (e : exn).
 Arguments Ok {A} a.
